@@ -1309,6 +1309,18 @@ func (c *Check) sweepStall() {
 	})
 }
 
+// sweepRetain: retention sweep (see modeRetain): fresh processes, both APIs, four variants.
+func (c *Check) sweepRetain() {
+	parallel(8, c.NCPU, func(i int) {
+		ses := &workerlib.Session{Mode: "retain", Corpus: c.CorpusP, Seed: c.Seed, Worker: i, From: i & 1, Runs: i >> 1, NSites: len(c.E.Report.Sites), DistinctPath: c.distinctPath()}
+		pr := runWorker(c.E, ses, 1, 15*time.Minute)
+		if err := procOK(pr); err != nil {
+			harnessFail("retention sweep: %v", err)
+		}
+		c.Agg.add("retention_sweep", pr)
+	})
+}
+
 // sweepColdBurst: one fresh process per (burst candidate, API); variant "" or a configuration variant.
 func (c *Check) sweepColdBurst(variant string, perAPI int) {
 	var jobs [][2]int
